@@ -16,6 +16,13 @@ CLAIMS = {
         "note": "Trusted: HashMap association-list model (std HashMap itself is not verified), other E2 std models, z3. Outside: lists longer than 3, names longer than one byte, duplicate names.",
         "technique": "SMT-based bounded symbolic execution of MIR (z3), inductive step over symbolic pre-states, native replay",
     },
+    "C12": {
+        "engine": "E2-mirsym",
+        "text": "The numeric kernel of the limit check (range calculation per data type and conversion kind, tolerant comparison) is executed symbolically from MIR with f64 coefficients and declared limits as solver variables over the whole coefficient grid of the property; the computed range is compared with the property's formulas. Unbounded in value within the grid, bounded in shape (one conversion, one object).",
+        "design_ref": "DESIGN.md section 4 C12",
+        "note": "Trusted: z3 FP theory, E2 encoder (validated natively on sampled paths). The oracle for LINEAR/RAT_FUNC is compared bit-exactly (see assumptions in the evidence). Outside: the dispatch from objects to data types/conversions (C11 harnesses), NaN/infinite coefficients.",
+        "technique": "SMT (z3 FP theory) over symbolically executed MIR, native replay",
+    },
 }
 
 _PENDING = "check not built yet in this revision of /verif (see DESIGN.md section 7 for the order of work)"
